@@ -38,21 +38,17 @@ NPASS=$(grep -E "^test result" /tmp/seed-test.out | awk '{s+=$4} END {print s}')
 SEEDED_DEMO=$(run_demo)
 git checkout -q -- . ; git clean -fdq -e target
 echo "[$SID] tests with change: $TESTS ($NPASS passed); demo: clean=$CLEAN_DEMO seeded=$SEEDED_DEMO"
-# now the checks of /verif against /repo with the change applied
+# now the checks of /verif against a scratch copy of the repository with the change applied
+# (tools/altcheck.sh: /repo itself is not touched)
 cd /verif
-[ -z "$(git -C /repo status --porcelain)" ] || { echo "/repo not clean"; exit 2; }
-git -C /repo apply "$SRC/patch.diff" || exit 2
 RESULTS=""
 for C in $CHECKS; do
-    # evidence and replays committed in /verif come from the unchanged tree only
-    cp "evidence/$C.json" "/tmp/seed-evidence-$C.json" 2>/dev/null
-    ./check "$C" quick >/tmp/seed-check-$C.out 2>&1; RC=$?
-    cp "/tmp/seed-evidence-$C.json" "evidence/$C.json" 2>/dev/null; rm -f "/tmp/seed-evidence-$C.json"
-    SIGS=$(grep -E "^  signature:" /tmp/seed-check-$C.out | sed 's/^  signature: //' | head -5 | tr '\n' ';')
+    LINE=$(tools/altcheck.sh "$SRC/patch.diff" "$C" | tail -1)
+    RC=$(echo "$LINE" | sed -E 's/^[^:]*:exit=([0-9]+):.*/\1/')
+    SIGS=$(echo "$LINE" | sed -E 's/^[^:]*:exit=[0-9]+://')
     echo "[$SID] check $C: exit $RC  $SIGS"
     RESULTS="$RESULTS$C"$'\x1f'"$RC"$'\x1f'"$SIGS"$'\x1e'
 done
-git -C /repo checkout -q -- . ; git -C /repo clean -fdq
 mkdir -p "$OUT"
 cp "$SRC/patch.diff" "$OUT/"; cp "$SRC"/demo* "$OUT/" 2>/dev/null; cp "$SRC/expected.txt" "$OUT/" 2>/dev/null; cp "$SRC/notes.md" "$OUT/agent_notes.md" 2>/dev/null
 for f in "$SRC"/*; do case "$f" in *.sld|*/lib|*/libs) cp -r "$f" "$OUT/";; esac; done
@@ -69,7 +65,7 @@ meta = {
     "demo_on_clean_tree": os.environ["CLEAN_DEMO"], "demo_with_change": os.environ["SEEDED_DEMO"],
     "checks_run": res,
     "caught_by": [r["check"] for r in res if r["exit"] == 1],
-    "ran": "tools/triage_seed.sh %s (scratch worktree %s: git apply, cargo test --workspace --offline, demonstration with and without the change; then git -C /repo apply, ./check <id> quick, git -C /repo checkout -- .)" % (os.environ["SID"], os.environ["WT"]),
+    "ran": "tools/triage_seed.sh %s (scratch worktree %s: git apply, cargo test --workspace --offline, demonstration with and without the change; then tools/altcheck.sh: the quick check against a scratch worktree of /repo with the patch applied)" % (os.environ["SID"], os.environ["WT"]),
 }
 path = os.path.join(os.environ["OUT"], "meta.json")
 old = {}
